@@ -20,7 +20,7 @@ package floatingip
 //@ pure storeUnchanged() bool = StoreDom == old(StoreDom) && StoreKey == old(StoreKey) && StorePolicy == old(StorePolicy) && StoreNode == old(StoreNode) && StoreUid == old(StoreUid)
 
 // ---- table invariant (I1-I3 of DESIGN.md) ----
-//@ pure tblOK(m map[string]*FloatingIP) bool = m != nil && forall k string :: k in m ==> m[k] != nil && m[k].pool != nil && ipstr(m[k].IP) == k
+//@ pure tblOK(m map[string]*FloatingIP) bool = m != nil && forall k string :: k in m ==> m[k] != nil && m[k].pool != nil && m[k].pool.nodeSubnets != nil && ipstr(m[k].IP) == k
 //@ pure freeEntry(f *FloatingIP) bool = f.Key == "" && f.NodeName == "" && f.PodUid == "" && f.Policy == 0
 //@ pure inv(ci *crdIpam) bool = ci.cacheLock != nil && ci.client != nil && tblOK(ci.allocatedFIPs) && tblOK(ci.unallocatedFIPs) && ci.allocatedFIPs != ci.unallocatedFIPs && (forall k string :: !(k in ci.allocatedFIPs && k in ci.unallocatedFIPs)) && (forall k string :: k in ci.unallocatedFIPs ==> freeEntry(ci.unallocatedFIPs[k]))
 
@@ -315,11 +315,14 @@ package floatingip
 //@ func [C06,C13,C02] (*crdIpam).toFloatingIPInfo
 //@   requires fip != nil && fip.pool != nil
 //@   ensures [C06,C13:info-copies-entry-and-pool] result != nil && fresh(result) && result.FloatingIP.Key == fip.Key && result.FloatingIP.PodUid == fip.PodUid && result.FloatingIP.NodeName == fip.NodeName && result.FloatingIP.Policy == fip.Policy && result.FloatingIP.IP == fip.IP && result.IPInfo.IP != nil && result.IPInfo.IP.IP == fip.IP && result.IPInfo.IP.Mask == fip.pool.Mask && result.IPInfo.Vlan == fip.pool.Vlan && result.IPInfo.Gateway == fip.pool.Gateway
+//@   ensures [C06:info-node-subnets-of-pool] result.NodeSubnets != nil && fresh(result.NodeSubnets) && (fip.pool.nodeSubnets != nil ==> dom(result.NodeSubnets) == dom(fip.pool.nodeSubnets))
 //@   modifies fresh FloatingIPInfo.*, fresh nets.IPNet.*, fresh mapsof(map[string]sets.Empty), fresh elemsof(string)
 
 // ---- ByKeyAndIPRanges: every reported entry is allocated under the key ----
-//@ pure infoOfKey(ci *crdIpam, info *FloatingIPInfo, key string) bool = info.FloatingIP.Key == key && ipstr(info.FloatingIP.IP) in ci.allocatedFIPs && ci.allocatedFIPs[ipstr(info.FloatingIP.IP)].Key == key && info.FloatingIP.PodUid == ci.allocatedFIPs[ipstr(info.FloatingIP.IP)].PodUid && info.FloatingIP.NodeName == ci.allocatedFIPs[ipstr(info.FloatingIP.IP)].NodeName && info.IPInfo.IP != nil && info.IPInfo.IP.IP == info.FloatingIP.IP
-//@ func [C02,C08,C04] (*crdIpam).ByKeyAndIPRanges
+//@ pure infoOfKey(ci *crdIpam, info *FloatingIPInfo, key string) bool = info.FloatingIP.Key == key && ipstr(info.FloatingIP.IP) in ci.allocatedFIPs && ci.allocatedFIPs[ipstr(info.FloatingIP.IP)].Key == key && info.FloatingIP.PodUid == ci.allocatedFIPs[ipstr(info.FloatingIP.IP)].PodUid && info.FloatingIP.NodeName == ci.allocatedFIPs[ipstr(info.FloatingIP.IP)].NodeName && info.IPInfo.IP != nil && info.IPInfo.IP.IP == info.FloatingIP.IP && subnetsOfEntry(info, ci.allocatedFIPs[ipstr(info.FloatingIP.IP)])
+//@ pure subnetsOfEntry(info *FloatingIPInfo, fip *FloatingIP) bool = info.NodeSubnets != nil && fip.pool.nodeSubnets != nil && dom(info.NodeSubnets) == dom(fip.pool.nodeSubnets)
+//@ pure ownedIn(ci *crdIpam, key string, rs []nets.IPRange) bool = exists k string :: k in ci.allocatedFIPs && ci.allocatedFIPs[k].Key == key && inRanges(rs, k)
+//@ func [C02,C08,C04,C06] (*crdIpam).ByKeyAndIPRanges
 //@   requires inv(ci) && synced(ci) && held[ptr(ci.cacheLock)] == 0
 //@   requires forall i int, r int {ipranges[i][r]} :: 0 <= i && i < len(ipranges) && 0 <= r && r < len(ipranges[i]) ==> nets.wfRange(ipranges[i][r])
 //@   ensures [C02,C04:bykey-only-own-entries] result1 == nil && forall j int :: 0 <= j && j < len(result0) ==> result0[j] == nil || (fresh(result0[j]) && infoOfKey(ci, result0[j], key))
@@ -327,9 +330,17 @@ package floatingip
 //@   ensures [C02:bykey-all-nonnil-without-ranges] len(ipranges) == 0 ==> forall j int :: 0 <= j && j < len(result0) ==> result0[j] != nil
 //@   ensures [C02,C04:bykey-complete-without-ranges] len(ipranges) == 0 ==> forall k string :: k in ci.allocatedFIPs && ci.allocatedFIPs[k].Key == key ==> exists j int :: 0 <= j && j < len(result0) && result0[j] != nil && ipstr(result0[j].FloatingIP.IP) == k
 //@   ensures result0 == nil || fresh(result0)
+//@   ensures [C06,C08:bykey-slot-in-its-range] len(ipranges) != 0 ==> forall j int :: 0 <= j && j < len(result0) && result0[j] != nil ==> inRanges(ipranges[j], ipstr(result0[j].FloatingIP.IP))
+//@   ensures [C06,C08:bykey-complete-with-ranges] forall j int {ipranges[j]} :: 0 <= j && j < len(ipranges) && ownedIn(ci, key, ipranges[j]) ==> result0[j] != nil
 //@   modifies fresh FloatingIPInfo.*, fresh nets.IPNet.*, fresh mapsof(map[string]sets.Empty), fresh elemsof(string), fresh elemsof(*FloatingIPInfo), fresh elemsof(byte)
 //@   loop 0,call:walkIPRanges#0/0,call:walkIPRanges#0/1 invariant sameElems(ipinfos) && ipinfos != nil && fresh(ipinfos) && len(ipinfos) == len(ipranges) && forall j int :: 0 <= j && j < len(ipinfos) ==> ipinfos[j] == nil || (fresh(ipinfos[j]) && infoOfKey(ci, ipinfos[j], key))
-//@   loop call:walkIPRanges#0/0,call:walkIPRanges#0/1 invariant 0 <= outer_idx && outer_idx < len(ipranges) && i == outer_idx
+//@   loop call:walkIPRanges#0/0,call:walkIPRanges#0/1 invariant 0 <= outer_idx && outer_idx < len(ipranges) && i == outer_idx && ranges == ipranges[outer_idx]
+//@   loop 0,call:walkIPRanges#0/0,call:walkIPRanges#0/1 invariant forall j int :: 0 <= j && j < len(ipinfos) && ipinfos[j] != nil ==> inRanges(ipranges[j], ipstr(ipinfos[j].FloatingIP.IP))
+//@   loop 0 invariant forall j int {ipranges[j]} :: 0 <= j && j < idx && ownedIn(ci, key, ipranges[j]) ==> ipinfos[j] != nil
+//@   loop call:walkIPRanges#0/0,call:walkIPRanges#0/1 invariant forall j int {ipranges[j]} :: 0 <= j && j < outer_idx && ownedIn(ci, key, ipranges[j]) ==> ipinfos[j] != nil
+//@   loop call:walkIPRanges#0/0,call:walkIPRanges#0/1 invariant forall k string, q int {k in ci.allocatedFIPs, ranges[q]} :: 0 <= q && q < idx && k in ci.allocatedFIPs && ci.allocatedFIPs[k].Key == key && k == ipv4str(ipv4val(k)) && nets.val(ranges[q].First) <= ipv4val(k) ==> ipv4val(k) > nets.val(ranges[q].Last)
+//@   loop call:walkIPRanges#0/1 invariant 0 <= idx && idx < len(ranges) && r == ranges[idx] && last == nets.val(r.Last) && nets.val(r.First) <= first
+//@   loop call:walkIPRanges#0/1 invariant forall k string {k in ci.allocatedFIPs} :: k in ci.allocatedFIPs && ci.allocatedFIPs[k].Key == key && k == ipv4str(ipv4val(k)) && nets.val(r.First) <= ipv4val(k) ==> ipv4val(k) >= first
 //@   loop 1 invariant forall k string :: visited[k] && k in ci.allocatedFIPs && ci.allocatedFIPs[k].Key == key ==> exists j int :: 0 <= j && j < len(ipinfos) && ipinfos[j] != nil && ipstr(ipinfos[j].FloatingIP.IP) == k
 //@   loop 1 invariant sameElems(ipinfos) && (ipinfos == nil || fresh(ipinfos)) && forall j int :: 0 <= j && j < len(ipinfos) ==> ipinfos[j] != nil && fresh(ipinfos[j]) && infoOfKey(ci, ipinfos[j], key)
 
@@ -368,10 +379,12 @@ package floatingip
 //@   ensures [C02:bykey-all-nonnil-without-ranges] len(ipranges) == 0 ==> forall j int :: 0 <= j && j < len(result0) ==> result0[j] != nil
 //@   ensures [C02,C04:bykey-complete-without-ranges] len(ipranges) == 0 ==> forall k string :: k in ci.allocatedFIPs && ci.allocatedFIPs[k].Key == key ==> exists j int :: 0 <= j && j < len(result0) && result0[j] != nil && ipstr(result0[j].FloatingIP.IP) == k
 //@   ensures result0 == nil || fresh(result0)
+//@   ensures [C06,C08:bykey-slot-in-its-range] len(ipranges) != 0 ==> forall j int :: 0 <= j && j < len(result0) && result0[j] != nil ==> inRanges(ipranges[j], ipstr(result0[j].FloatingIP.IP))
+//@   ensures [C06,C08:bykey-complete-with-ranges] forall j int {ipranges[j]} :: 0 <= j && j < len(ipranges) && ownedIn(ci, key, ipranges[j]) ==> result0[j] != nil
 //@   modifies fresh FloatingIPInfo.*, fresh nets.IPNet.*, fresh mapsof(map[string]sets.Empty), fresh elemsof(string), fresh elemsof(*FloatingIPInfo), fresh elemsof(byte)
 
 // ---- ByPrefix: read-only listing of the entries whose key has the prefix (plus the free ones for "") ----
-//@ pure infoOfEntry(ci *crdIpam, info *FloatingIPInfo) bool = (ipstr(info.FloatingIP.IP) in ci.allocatedFIPs && info.FloatingIP.Key == ci.allocatedFIPs[ipstr(info.FloatingIP.IP)].Key && info.FloatingIP.PodUid == ci.allocatedFIPs[ipstr(info.FloatingIP.IP)].PodUid && info.FloatingIP.NodeName == ci.allocatedFIPs[ipstr(info.FloatingIP.IP)].NodeName && info.FloatingIP.Policy == ci.allocatedFIPs[ipstr(info.FloatingIP.IP)].Policy) || (ipstr(info.FloatingIP.IP) in ci.unallocatedFIPs && info.FloatingIP.Key == "")
+//@ pure infoOfEntry(ci *crdIpam, info *FloatingIPInfo) bool = (ipstr(info.FloatingIP.IP) in ci.allocatedFIPs && info.FloatingIP.Key == ci.allocatedFIPs[ipstr(info.FloatingIP.IP)].Key && info.FloatingIP.PodUid == ci.allocatedFIPs[ipstr(info.FloatingIP.IP)].PodUid && info.FloatingIP.NodeName == ci.allocatedFIPs[ipstr(info.FloatingIP.IP)].NodeName && info.FloatingIP.Policy == ci.allocatedFIPs[ipstr(info.FloatingIP.IP)].Policy && subnetsOfEntry(info, ci.allocatedFIPs[ipstr(info.FloatingIP.IP)])) || (ipstr(info.FloatingIP.IP) in ci.unallocatedFIPs && info.FloatingIP.Key == "" && subnetsOfEntry(info, ci.unallocatedFIPs[ipstr(info.FloatingIP.IP)]))
 //@ func [C03,C07,C11] (*crdIpam).ByPrefix
 //@   requires inv(ci) && synced(ci) && held[ptr(ci.cacheLock)] == 0
 //@   ensures [C03,C11:byprefix-lists-table-entries] result1 == nil && forall j int :: 0 <= j && j < len(result0) ==> result0[j] != nil && fresh(result0[j]) && infoOfEntry(ci, result0[j]) && (hasPrefix(result0[j].FloatingIP.Key, prefix) || prefix == "")
@@ -426,10 +439,10 @@ package floatingip
 //@ func [C06,C18] (*crdIpam).NodeSubnetsByIPRanges
 //@   requires inv(ci) && synced(ci) && poolIndexOK(ci) && held[ptr(ci.cacheLock)] == 0
 //@   requires forall i int, r int {ipranges[i][r]} :: 0 <= i && i < len(ipranges) && 0 <= r && r < len(ipranges[i]) ==> nets.wfRange(ipranges[i][r])
-//@   ensures result1 == nil && result0 != nil
+//@   ensures result1 == nil && result0 != nil && fresh(result0)
 //@   ensures [C06:offered-subnet-has-free-ip] len(ipranges) == 0 ==> forall s string :: s in result0 ==> exists k string :: k in ci.unallocatedFIPs && hasSubnet(ci.unallocatedFIPs[k].pool, s)
 //@   ensures [C06:offered-subnet-serves-every-range] forall s string, i int {s in result0, ipranges[i]} :: s in result0 && 0 <= i && i < len(ipranges) ==> servable(ci, s, ipranges[i])
-//@   modifies all
+//@   modifies fresh mapsof(map[string]sets.Empty), fresh mapsof(map[int]sets.Empty), fresh elemsof(string), fresh elemsof(int), fresh elemsof(byte)
 //@   loop 0 invariant idxFromAny(ci, poolIndexSet) && subnetSet != nil && fresh(subnetSet) && len(subnetSet) == 0 && held[ptr(ci.cacheLock)] == 1
 //@   loop call:NodeSubnetsByIPRanges$1#0/0 invariant subnetSet != nil && forall s string :: s in subnetSet ==> exists k string :: k in ci.unallocatedFIPs && hasSubnet(ci.unallocatedFIPs[k].pool, s)
 //@   loop 1 invariant held[ptr(ci.cacheLock)] == 1 && subnetSet != nil && fresh(subnetSet) && (idx == 0 ==> len(subnetSet) == 0) && forall s string, i int {s in subnetSet, ipranges[i]} :: s in subnetSet && 0 <= i && i < idx ==> servable(ci, s, ipranges[i])
@@ -437,3 +450,51 @@ package floatingip
 //@   loop call:walkIPRanges#0/1 invariant 0 <= idx && idx < len(ranges) && r == ranges[idx] && last == nets.val(r.Last) && nets.val(r.First) <= first
 //@   loop call:NodeSubnetsByIPRanges$1#1/0 invariant subnetSet != nil && forall s string :: s in subnetSet ==> servable(ci, s, outer_ranges)
 //@   loop call:NodeSubnetsByIPRanges$1#2/0 invariant subnetSet != nil && forall s string :: s in subnetSet ==> servable(ci, s, outer_ranges)
+
+// ---- First: some entry of the key, if there is one ----
+//@ func [C02,C06,C18] (*crdIpam).First
+//@   requires inv(ci) && synced(ci) && held[ptr(ci.cacheLock)] == 0
+//@   ensures [C02:first-own-entry] result1 == nil && (result0 != nil ==> fresh(result0) && infoOfKey(ci, result0, key))
+//@   ensures [C02,C18:first-finds-existing] (exists k string :: k in ci.allocatedFIPs && ci.allocatedFIPs[k].Key == key) ==> result0 != nil
+//@   modifies fresh FloatingIPInfo.*, fresh nets.IPNet.*, fresh mapsof(map[string]sets.Empty), fresh elemsof(string)
+//@   loop 0 invariant held[ptr(ci.cacheLock)] == 1 && forall k string :: visited[k] && k in ci.allocatedFIPs ==> ci.allocatedFIPs[k].Key != key
+//@ func (IPAM).First trusted
+//@   let ci = as(crdIpam, self)
+//@   let key = arg0
+//@   requires inv(ci) && synced(ci) && held[ptr(ci.cacheLock)] == 0
+//@   ensures [C02:first-own-entry] result1 == nil && (result0 != nil ==> fresh(result0) && infoOfKey(ci, result0, key))
+//@   ensures [C02,C18:first-finds-existing] (exists k string :: k in ci.allocatedFIPs && ci.allocatedFIPs[k].Key == key) ==> result0 != nil
+//@   modifies fresh FloatingIPInfo.*, fresh nets.IPNet.*, fresh mapsof(map[string]sets.Empty), fresh elemsof(string)
+//@ func (IPAM).AllocateInSubnetWithKey trusted
+//@   let ci = as(crdIpam, self)
+//@   requires inv(ci) && synced(ci) && held[ptr(ci.cacheLock)] == 0
+//@   requires 0 <= attr.Policy && attr.Policy < 65536
+//@   ensures [C01,C05] inv(ci)
+//@   ensures [C05] synced(ci)
+//@   ensures [C01:rekey-frame] tablesSame(ci) && ciFieldsSame(ci)
+//@   ensures [C02,C01:rekey-one-prefix-entry] result == nil ==> exists p *FloatingIP :: allocated(p) && inTable(ci.allocatedFIPs, p) && old(p.Key) == oldK && hasSubnet(p.pool, subnet) && attrApplied(p, newK, attr) && p.IP == old(p.IP) && p.pool == old(p.pool) && entriesSameExcept(p) && (forall k string :: k in ci.allocatedFIPs && old(ci.allocatedFIPs[k].Key) == oldK && hasSubnet(ci.allocatedFIPs[k].pool, subnet) ==> unixNano(old(ci.allocatedFIPs[k].UpdatedAt)) <= unixNano(old(p.UpdatedAt)) || unixNano(old(ci.allocatedFIPs[k].UpdatedAt)) <= 0)
+//@   ensures [C05,C01:rekey-failure-atomic] result != nil ==> storeUnchanged() && forall p *FloatingIP :: allocated(p) ==> sameEntry(p)
+//@   modifies FloatingIP.Key, FloatingIP.Policy, FloatingIP.UpdatedAt, FloatingIP.NodeName, FloatingIP.PodUid, fresh FloatingIP.IP, fresh FloatingIP.pool, fresh FloatingIP.Labels, StoreKey, StorePolicy, StoreNode, StoreUid, faults
+//@ func (IPAM).AllocateInSubnet trusted
+//@   let ci = as(crdIpam, self)
+//@   let key = arg0
+//@   let nodeSubnet = arg1
+//@   let attr = arg2
+//@   requires inv(ci) && synced(ci) && held[ptr(ci.cacheLock)] == 0
+//@   requires 0 <= attr.Policy && attr.Policy < 65536
+//@   ensures [C01,C05] inv(ci)
+//@   ensures [C05] synced(ci)
+//@   ensures [C01:alloc-frame] allEntriesSame() && ciFieldsSame(ci)
+//@   ensures [C01,C06,C09:alloc-only-free-routable] result1 == nil ==> exists k string :: old(k in ci.unallocatedFIPs) && old(hasSubnet(ci.unallocatedFIPs[k].pool, netstr(nodeSubnet))) && k in ci.allocatedFIPs && !(k in ci.unallocatedFIPs) && attrApplied(ci.allocatedFIPs[k], key, attr) && fresh(ci.allocatedFIPs[k]) && ci.allocatedFIPs[k].pool == old(ci.unallocatedFIPs[k].pool) && ci.allocatedFIPs[k].IP == old(ci.unallocatedFIPs[k].IP) && tablesSameExcept(ci, k)
+//@   ensures [C06:alloc-noip-means-none-routable] result1 == ErrNoEnoughIP && nodeSubnet != nil ==> forall k string :: k in ci.unallocatedFIPs ==> !hasSubnet(ci.unallocatedFIPs[k].pool, netstr(nodeSubnet))
+//@   ensures [C05,C01:alloc-failure-atomic] result1 != nil ==> tablesSame(ci) && storeUnchanged()
+//@   ensures [C04:alloc-store-only-adds] forall k string :: old(StoreDom[k]) ==> storeSameAt(k)
+//@   modifies map(ci.allocatedFIPs), map(ci.unallocatedFIPs), fresh FloatingIP.*, StoreDom, StoreKey, StorePolicy, StoreNode, StoreUid, fresh elemsof(byte), faults
+//@ func (IPAM).NodeSubnetsByIPRanges trusted
+//@   let ci = as(crdIpam, self)
+//@   requires inv(ci) && synced(ci) && poolIndexOK(ci) && held[ptr(ci.cacheLock)] == 0
+//@   requires forall i int, r int {ipranges[i][r]} :: 0 <= i && i < len(ipranges) && 0 <= r && r < len(ipranges[i]) ==> nets.wfRange(ipranges[i][r])
+//@   ensures result1 == nil && result0 != nil && fresh(result0)
+//@   ensures [C06:offered-subnet-has-free-ip] len(ipranges) == 0 ==> forall s string :: s in result0 ==> exists k string :: k in ci.unallocatedFIPs && hasSubnet(ci.unallocatedFIPs[k].pool, s)
+//@   ensures [C06:offered-subnet-serves-every-range] forall s string, i int {s in result0, ipranges[i]} :: s in result0 && 0 <= i && i < len(ipranges) ==> servable(ci, s, ipranges[i])
+//@   modifies fresh mapsof(map[string]sets.Empty), fresh mapsof(map[int]sets.Empty), fresh elemsof(string), fresh elemsof(int), fresh elemsof(byte)
